@@ -101,8 +101,17 @@ pub fn run(args: &Args, r: &mut Report) {
         let mut steps = 0u64;
         let target_idle = case.stop_idle;
         let mut gone_phase = false;
+        let lag_mode = variant < 5 && rng.bool();
+        let mut lagged = 0;
         loop {
-            d.settle();
+            // a slow observer: sometimes the stream is not polled although it was woken
+            if lag_mode && lagged < 3 && !d.pending_gates().is_empty() && rng.chance(1, 6) {
+                lagged += 1;
+                inj.push_str("lag,");
+            } else {
+                lagged = 0;
+                d.settle();
+            }
             steps += 1;
             if d.panicked.is_some() || d.out_of_steps || steps > 4000 {
                 break;
